@@ -450,6 +450,22 @@ pub fn gen_redundant_decl_motif(m: &Model, rng: &mut Rng, home: &[Lid]) -> Optio
     Some(ops)
 }
 
+/// whitespace handling meets an xml:space value that is neither of the two it knows, with
+/// whitespace-only text below it
+pub fn gen_space_motif(m: &Model, rng: &mut Rng, home: &[Lid]) -> Option<Vec<Op>> {
+    let p = Picker::new(m, home, 50);
+    let e = p.kind(rng, K::Elem)?;
+    let name = Nm::new("space", absdoc::XML_NS);
+    let mut ops = vec![Op::SetAttribute { e, name, value: rng.pick_str(&["yes", "", "Preserve", "preserve", "default", "default "]).to_string() }];
+    ops.push(Op::AppendText { p: e, s: rng.pick_str(&[" ", "  \n ", "\t"]).to_string() });
+    if rng.pct(50) {
+        ops.push(Op::AppendElement { p: e, name: gen_name(rng) });
+        ops.push(Op::AppendText { p: e, s: " ".to_string() });
+    }
+    ops.push(Op::RemoveInsignificantWhitespace { n: if rng.pct(60) { m.root_of(e) } else { e } });
+    Some(ops)
+}
+
 /// another client builds text from pieces: consolidation off, two or three text nodes next to each
 /// other, consolidation on again — the store then holds adjacent text nodes while consolidation
 /// is on, and every later call meets that state
@@ -737,6 +753,9 @@ fn try_gen_op(m: &Model, rng: &mut Rng, prof: &Profile, home: &[Lid]) -> Option<
                 // a reparse, so C10's profile leaves them out)
                 let value = if rng.pct(10) && !prof.representable_ns_only { rng.pick_str(&[" v", "v ", "a  b", " a  b "]).to_string() } else { rng.pick_str(&ATTR_VALUES[..8]).to_string() };
                 let value = if rng.pct(3) { rng.pick_str(&STRADDLING).to_string() } else { value };
+                // (nothing validates the value of xml:space: whitespace handling meets values other than
+                // the two it knows)
+                let value = if name.local == "space" && name.uri == absdoc::XML_NS && rng.pct(60) { rng.pick_str(&["yes", "", "Preserve", "preserve ", "default"]).to_string() } else { value };
                 let value = match same_value {
                     Some(v) if rng.pct(20) => v,
                     _ => value,
